@@ -65,7 +65,7 @@ func weighted(r *simrt.Rng, w map[string]int, order []string) string {
 	return order[0]
 }
 
-var opOrder = []string{OpAdd, OpAddMulti, OpCompactAll, OpExpire, OpAutoCompact, OpCompactRange, OpClean, OpUpToDate, OpRead, OpReopen, OpClose, OpSetAuto}
+var opOrder = []string{OpBegin, OpCommit, OpAbort, OpAdd, OpAddMulti, OpCompactAll, OpExpire, OpAutoCompact, OpCompactRange, OpClean, OpUpToDate, OpRead, OpReopen, OpClose, OpSetAuto}
 
 // GenCfg draws a write configuration.
 func GenCfg(r *simrt.Rng, p *Profile) CfgSpec {
@@ -237,6 +237,11 @@ func (g *genCtx) op(h int) OpSpec {
 	switch k {
 	case OpAdd:
 		op.Txns = []TxnSpec{g.txn()}
+	case OpBegin:
+		n := r.Intn(3)
+		for i := 0; i < n; i++ {
+			op.Txns = append(op.Txns, g.txn())
+		}
 	case OpAddMulti:
 		n := 1 + r.Intn(3)
 		for i := 0; i < n; i++ {
@@ -318,6 +323,11 @@ func GenTurn(prop string, seed uint64, p *Profile) *RunSpec {
 	for i := 0; i < n; i++ {
 		ops = append(ops, g.op(r.Intn(nh)))
 	}
+	if p.W[OpBegin] > 0 {
+		for h := 0; h < nh; h++ {
+			ops = append(ops, OpSpec{Kind: OpAbort, H: h})
+		}
+	}
 	spec.Tasks = []TaskSpec{{Name: "turn", Ops: ops}}
 	return spec
 }
@@ -352,6 +362,9 @@ func GenConc(prop string, seed uint64, p *Profile) *RunSpec {
 		for i := 0; i < n; i++ {
 			ts.Ops = append(ts.Ops, g.op(t))
 			est += 30
+		}
+		if p.W[OpBegin] > 0 || (g.role != nil && g.role[OpBegin] > 0) {
+			ts.Ops = append(ts.Ops, OpSpec{Kind: OpAbort, H: t})
 		}
 		spec.Tasks = append(spec.Tasks, ts)
 	}
